@@ -3,7 +3,7 @@ NEXT Next
 CONSTANTS
   Solver = "dense"
   MCN = 2
-  MCLats = {"chain2", "chain3", "pow2", "nil5"}
+  MCLats = {"chain2", "nil5"}
   MCFam = "idgenkill"
   MCParN = 2
   UseJson = TRUE
